@@ -7,7 +7,7 @@ from libertem_blobfinder.base import masks
 PROP = "C01"
 LEAN_MODULE = "BlobfinderModel.Properties.C01"
 GEN_FILES = ["Eval", "Patterns", "Masks"]
-FRAGMENTS = ["upsampling", "correlation_fft", "shift", "mask_center", "user_template", "rgbs_geometry", "log_scale"]
+FRAGMENTS = ["upsampling", "correlation_fft", "shift", "mask_center", "user_template", "rgbs_geometry", "log_scale", "wrappers_text"]
 DRIVER = "drvcorr"
 RULE = ("correspondence: the correlation-map centre used by the upsampling and the origin shift of both pipelines for "
         "every axis length 1..160 vs np.ceil(n/2) / the roll of np.fft.ifftshift; oracle: frames whose log-scaled intensity "
